@@ -157,6 +157,11 @@ impl Lexicon {
                         }
                         _ => {
                             features_len += nin;
+                            // The input ends right after a comma: the last (empty) field is
+                            // closed by EOF, i.e., without a terminator to be stripped below.
+                            if record_end && nin == 0 {
+                                features_len += 1;
+                            }
                         }
                     }
                     record_end_pos += nin;
